@@ -1215,6 +1215,59 @@ def _sroa_function(fn: ast.FunctionDef, records: Dict[str, List[Tuple[str, Optio
   return n
 
 
+def _propagate_name_aliases(fn: ast.FunctionDef) -> int:
+  """`a = b` where both names are bound exactly once in the function (b earlier in the same statement list, or b a
+  parameter that is never re-bound): loads of `a` read `b` directly and the copy disappears (what inlining a
+  value-returning helper leaves behind)."""
+  n = 0
+  for _ in range(6):
+    stores: Dict[str, int] = {}
+    for x in ast.walk(fn):
+      if isinstance(x, ast.Name) and isinstance(x.ctx, (ast.Store, ast.Del)):
+        stores[x.id] = stores.get(x.id, 0) + 1
+      elif isinstance(x, ast.ExceptHandler) and x.name:
+        stores[x.name] = stores.get(x.name, 0) + 2
+      elif isinstance(x, (ast.Global, ast.Nonlocal)):
+        for nm in x.names:
+          stores[nm] = stores.get(nm, 0) + 2
+    params = {a.arg for a in fn.args.args + fn.args.kwonlyargs + fn.args.posonlyargs}
+    nested_names = {z.id for y in ast.walk(fn) if y is not fn and isinstance(y, (ast.FunctionDef, ast.Lambda))
+                    for z in ast.walk(y) if isinstance(z, ast.Name)}
+    done = False
+
+    def scan(stmts: List[ast.stmt]) -> bool:
+      nonlocal done
+      for i, st in enumerate(stmts):
+        if isinstance(st, ast.Assign) and len(st.targets) == 1 and isinstance(st.targets[0], ast.Name) \
+            and isinstance(st.value, ast.Name):
+          a, b = st.targets[0].id, st.value.id
+          if a != b and stores.get(a) == 1 and a not in params and a not in nested_names and b not in nested_names and (
+              (stores.get(b) == 1 and b not in params and any(
+                  isinstance(p_, ast.Assign) and any(isinstance(t, ast.Name) and t.id == b for t in p_.targets)
+                  for p_ in stmts[:i]))
+              or (b in params and stores.get(b, 0) == 0 and b not in ('self', 'cls'))):
+            del stmts[i]
+            for x in ast.walk(fn):
+              if isinstance(x, ast.Name) and x.id == a and isinstance(x.ctx, ast.Load):
+                x.id = b
+            done = True
+            return True
+        for fld in ('body', 'orelse', 'finalbody'):
+          blk = getattr(st, fld, None)
+          if isinstance(blk, list) and not isinstance(st, (ast.FunctionDef, ast.ClassDef)) and scan(blk):
+            return True
+        if isinstance(st, ast.Try):
+          for h in st.handlers:
+            if scan(h.body):
+              return True
+      return False
+    scan(fn.body)
+    if not done:
+      break
+    n += 1
+  return n
+
+
 def _split_tuple_assigns(fn: ast.FunctionDef, records) -> int:
   """`a, b = (x, y)` / `a, b = Rec(x, y)` (what a tuple-returning helper leaves behind after inlining) becomes
   `a = x; b = y` when no target is read by a later element."""
@@ -1255,6 +1308,139 @@ def _split_tuple_assigns(fn: ast.FunctionDef, records) -> int:
             n += 1
             continue
       i += 1
+
+  do_block(fn.body)
+  return n
+
+
+# --------------------------------------------------------------------------- filter loops -> comprehensions
+_PURE_FUNCS = {'len', 'isinstance', 'bool', 'int', 'float', 'str', 'tuple', 'set', 'frozenset', 'sorted', 'min', 'max', 'abs',
+               'getattr', 'hasattr', 'type', 'id'}
+_PURE_METHODS = {'get', 'HasField', 'issubset', 'keys', 'values', 'items', 'startswith', 'endswith', 'lower', 'upper',
+                 'WhichOneof'}
+
+
+def _pure_expr(e: ast.AST) -> bool:
+  for x in ast.walk(e):
+    if isinstance(x, (ast.Await, ast.Yield, ast.YieldFrom, ast.NamedExpr, ast.Lambda)):
+      return False
+    if isinstance(x, ast.Call):
+      f = x.func
+      if isinstance(f, ast.Name) and f.id in _PURE_FUNCS:
+        continue
+      if isinstance(f, ast.Attribute) and f.attr in _PURE_METHODS:
+        continue
+      return False
+  return True
+
+
+def _filter_loops_to_comprehensions(fn: ast.FunctionDef) -> int:
+  """`A = []; B = []; for t in SRC: if c1: A.append(e1) elif c2: B.append(e2)` (pure conditions and elements, each
+  list appended in one arm only and mentioned nowhere else in the loop) is the pair of comprehensions
+  `A = [e1 for t in SRC if c1]; B = [e2 for t in SRC if not c1 and c2]`."""
+  n = 0
+
+  def arms_of(body: List[ast.stmt], conds: List[ast.AST]) -> Optional[List[Tuple[List[ast.AST], str, ast.AST]]]:
+    """[(path conditions, list name, element)] or None when the body is not a pure append chain."""
+    out = []
+    if len(body) == 1 and isinstance(body[0], ast.If):
+      st = body[0]
+      if not _pure_expr(st.test):
+        return None
+      a = arms_of(st.body, conds + [st.test])
+      if a is None:
+        return None
+      out += a
+      if st.orelse:
+        neg = ast.copy_location(ast.UnaryOp(op=ast.Not(), operand=st.test), st.test)
+        b = arms_of(st.orelse, conds + [neg])
+        if b is None:
+          return None
+        out += b
+      return out
+    for st in body:
+      if isinstance(st, ast.Expr) and isinstance(st.value, ast.Call) and isinstance(st.value.func, ast.Attribute) \
+          and st.value.func.attr == 'append' and isinstance(st.value.func.value, ast.Name) and len(st.value.args) == 1 \
+          and not st.value.keywords and _pure_expr(st.value.args[0]):
+        out.append((list(conds), st.value.func.value.id, st.value.args[0]))
+      else:
+        return None
+    return out
+
+  def do_block(stmts: List[ast.stmt]) -> None:
+    nonlocal n
+    i = 0
+    while i < len(stmts):
+      st = stmts[i]
+      for fld in ('body', 'orelse', 'finalbody'):
+        b = getattr(st, fld, None)
+        if isinstance(b, list) and not isinstance(st, (ast.FunctionDef, ast.ClassDef)):
+          do_block(b)
+      if isinstance(st, ast.Try):
+        for h in st.handlers:
+          do_block(h.body)
+      if not (isinstance(st, ast.For) and not st.orelse and isinstance(st.iter, ast.Name)
+              and all(isinstance(x, ast.Name) for x in ([st.target] if isinstance(st.target, ast.Name) else getattr(st.target, 'elts', [None])))):
+        i += 1
+        continue
+      arms = arms_of(st.body, [])
+      if not arms:
+        i += 1
+        continue
+      lists = [a[1] for a in arms]
+      tnames = {x.id for x in ast.walk(st.target) if isinstance(x, ast.Name)}
+      if len(set(lists)) != len(lists) or st.iter.id in lists or (set(lists) & tnames):
+        i += 1
+        continue
+      # each list: `L = []` earlier in this block, not mentioned between there and the loop, nor elsewhere in the loop
+      inits = {}
+      ok = True
+      for L in lists:
+        idx = next((j for j in range(i - 1, -1, -1) if isinstance(stmts[j], ast.Assign) and len(stmts[j].targets) == 1
+                    and isinstance(stmts[j].targets[0], ast.Name) and stmts[j].targets[0].id == L), None)
+        if idx is None or not (isinstance(stmts[idx].value, ast.List) and not stmts[idx].value.elts):
+          ok = False
+          break
+        between = stmts[idx + 1:i]
+        if any(isinstance(x, ast.Name) and x.id == L for b in between for x in ast.walk(b)):
+          ok = False
+          break
+        mentions = sum(1 for x in ast.walk(st) if isinstance(x, ast.Name) and x.id == L)
+        if mentions != 1:
+          ok = False
+          break
+        inits[L] = idx
+      # the iterated name must not be re-bound between the inits and the loop (it is read at the loop)
+      if not ok:
+        i += 1
+        continue
+      # loop variable read after the loop?  keep the loop then
+      later = stmts[i + 1:]
+      if any(isinstance(x, ast.Name) and x.id in tnames and isinstance(x.ctx, ast.Load) for b in later for x in ast.walk(b)):
+        i += 1
+        continue
+      new = []
+      for conds, L, elt in arms:
+        ifs = []
+        if conds:
+          flat: List[ast.AST] = []
+          for c in conds:
+            flat += list(c.values) if isinstance(c, ast.BoolOp) and isinstance(c.op, ast.And) else [c]
+          test = flat[0] if len(flat) == 1 else ast.BoolOp(op=ast.And(), values=[copy.deepcopy(c) for c in flat])
+          ifs = [copy.deepcopy(test)]
+        comp = ast.ListComp(elt=copy.deepcopy(elt), generators=[ast.comprehension(
+            target=copy.deepcopy(st.target), iter=copy.deepcopy(st.iter), ifs=ifs, is_async=0)])
+        a = ast.Assign(targets=[ast.Name(id=L, ctx=ast.Store())], value=comp, lineno=st.lineno)
+        ast.copy_location(a, st)
+        ast.copy_location(comp, st)
+        ast.fix_missing_locations(a)
+        new.append(a)
+      for j in sorted(inits.values(), reverse=True):
+        del stmts[j]
+        i -= 1
+      stmts[i:i + 1] = new
+      i += len(new)
+      n += 1
 
   do_block(fn.body)
   return n
@@ -1322,7 +1508,10 @@ def normalise(tree: ast.Module, exclude: Optional[Set[str]] = None) -> int:
     if isinstance(x, ast.FunctionDef):
       n += _split_tuple_assigns(x, records)
       if records:
-        n += _sroa_function(x, records)
+        n += _propagate_name_aliases(x)
+        if _sroa_function(x, records):
+          n += 1 + _propagate_name_aliases(x)
+      n += _filter_loops_to_comprehensions(x)
   for x in ast.walk(tree):
     if isinstance(x, ast.FunctionDef):
       n += _propagate_param_aliases(x)
